@@ -18,7 +18,7 @@ def dotted_name(n):
 
 
 import math
-NP_SCALAR = {'np.floor': math.floor, 'np.ceil': math.ceil, 'np.log10': math.log10, 'np.minimum': min, 'np.maximum': max, 'np.abs': abs, 'np.sqrt': math.sqrt,
+NP_SCALAR = {'np.sum': lambda x: sum(x), 'sum': lambda x: sum(x), 'np.any': lambda x: any(x), 'any': lambda x: any(x), 'all': lambda x: all(x), 'np.floor': math.floor, 'np.ceil': math.ceil, 'np.log10': math.log10, 'np.minimum': min, 'np.maximum': max, 'np.abs': abs, 'np.sqrt': math.sqrt,
              'np.round': round, 'float': float, 'abs': abs, 'min': min, 'max': max, 'round': round}
 
 
@@ -178,6 +178,16 @@ def _ev(e, env, hook):
             return UNK
         try:
             return NP_SCALAR[dotted_name(e.func)](*args)
+        except Exception:
+            return UNK
+    if isinstance(e, ast.Call) and isinstance(e.func, ast.Attribute) and e.func.attr in ('values', 'keys', 'items', 'get') and not e.keywords:
+        b = ev(e.func.value, env, hook)
+        args = [ev(a, env, hook) for a in e.args]
+        if b is UNK or not isinstance(b, dict) or any(a is UNK for a in args):
+            return UNK
+        try:
+            r_ = getattr(b, e.func.attr)(*args)
+            return r_ if e.func.attr == 'get' else list(r_)
         except Exception:
             return UNK
     # regular expressions on constants: Python's re is part of the trusted base (pattern and subject are constants)
